@@ -1,7 +1,8 @@
 import TomlVerif.Model.Datetime
+import TomlVerif.Lemmas.Datetime12
 /-! # C12 — date-times: the standalone parser, the document parser and the printer agree -/
 namespace TomlVerif.Props.C12
-open TomlVerif TomlVerif.Spec TomlVerif.Model.Datetime
+open TomlVerif TomlVerif.Spec TomlVerif.Model.Datetime TomlVerif.Lemmas.Datetime12
 
 def DateInRange (d : Date) : Prop := 1 ≤ d.month ∧ d.month ≤ 12 ∧ 1 ≤ d.day ∧ d.day ≤ maxDays d.year d.month
 def TimeInRange (t : Time) : Prop := t.hour ≤ 23 ∧ t.minute ≤ 59 ∧ t.second ≤ 60
@@ -16,4 +17,191 @@ theorem T12_doc_date_range (s rest : Bytes) (d : Date) (h : Doc.fullDate s = .ok
   all_goals simp_all [DateInRange]
   all_goals (obtain ⟨h1, _⟩ := h; subst h1; simp; omega)
 
+/-- the standalone parser and the document parser accept exactly the same byte strings and
+    produce the same value -/
+theorem T12_agree : ∀ s : Bytes, Std.fromStr s = Doc.parseAll s := agree
+
+/-- "1979-05-27T07:32:00.5Z": both sides of `T12_agree` are an actual value -/
+example : Std.fromStr [49, 57, 55, 57, 45, 48, 53, 45, 50, 55, 84, 48, 55, 58, 51, 50, 58, 48, 48, 46, 53, 90] =
+      some ⟨some ⟨1979, 5, 27⟩, some ⟨7, 32, 0, 500000000⟩, some .z⟩ ∧
+    Doc.parseAll [49, 57, 55, 57, 45, 48, 53, 45, 50, 55, 84, 48, 55, 58, 51, 50, 58, 48, 48, 46, 53, 90] =
+      some ⟨some ⟨1979, 5, 27⟩, some ⟨7, 32, 0, 500000000⟩, some .z⟩ := by decide
+/-- "07:32:00." (a dot without digits): the one place where the two time readers differ internally
+    (`Doc.partialTime` succeeds and leaves the dot, `Std.parseTime` fails); both whole-string
+    parsers reject it -/
+example : Std.parseTime [48, 55, 58, 51, 50, 58, 48, 48, 46] = none ∧
+    Doc.partialTime [48, 55, 58, 51, 50, 58, 48, 48, 46] = .ok ⟨7, 32, 0, 0⟩ [46] ∧
+    Std.fromStr [48, 55, 58, 51, 50, 58, 48, 48, 46] = none ∧
+    Doc.parseAll [48, 55, 58, 51, 50, 58, 48, 48, 46] = none := by decide
+
+/-! ## ranges -/
+
+/-- nanoseconds below one second -/
+def NanosInRange (t : Time) : Prop := t.nanosecond ≤ 999999999
+
+/-- one of the four kinds: offset date-time, local date-time, local date, local time -/
+def ShapeOk (dt : Datetime) : Prop :=
+  (dt.offset ≠ none → dt.date ≠ none ∧ dt.time ≠ none) ∧
+  (dt.date = none → dt.time ≠ none ∧ dt.offset = none)
+
+/-- every present field is in range and the value has one of the four shapes -/
+def FieldsInRange (dt : Datetime) : Prop :=
+  (∀ d, dt.date = some d → DateInRange d) ∧
+  (∀ t, dt.time = some t → TimeInRange t ∧ NanosInRange t) ∧
+  (∀ o, dt.offset = some o → OffsetInRange o) ∧
+  ShapeOk dt
+
+theorem offsetInRange_of (o : Offset) (h : ∀ m, o = .custom m → -1439 ≤ m ∧ m ≤ 1439) : OffsetInRange o := by
+  cases o with
+  | z => trivial
+  | custom m => exact h m rfl
+
+theorem doc_dateTime_ranges (s rest : Bytes) (dt : Datetime) (h : Doc.dateTime s = .ok dt rest) :
+    FieldsInRange dt := by
+  unfold Doc.dateTime at h
+  split at h
+  · rename_i d r hd
+    have hdr : DateInRange d := fullDate_range _ _ _ hd
+    split at h
+    · split at h
+      · split at h
+        · rename_i t r'' ht
+          have htr := partialTime_range _ _ _ ht
+          split at h
+          · rename_i o r3 ho
+            have hor := offsetInRange_of o (timeOffset_range _ _ _ ho)
+            injection h with h1 _; subst h1
+            simp [FieldsInRange, ShapeOk, TimeInRange, NanosInRange, *]
+          · injection h with h1 _; subst h1
+            simp [FieldsInRange, ShapeOk, TimeInRange, NanosInRange, *]
+          · contradiction
+        · injection h with h1 _; subst h1
+          simp [FieldsInRange, ShapeOk, *]
+        · contradiction
+      · injection h with h1 _; subst h1
+        simp [FieldsInRange, ShapeOk, *]
+    · injection h with h1 _; subst h1
+      simp [FieldsInRange, ShapeOk, *]
+  · contradiction
+  · split at h
+    · rename_i t r ht
+      have htr := partialTime_range _ _ _ ht
+      injection h with h1 _; subst h1
+      simp [FieldsInRange, ShapeOk, TimeInRange, NanosInRange, *]
+    · contradiction
+    · contradiction
+
+theorem T12_doc_ranges (s : Bytes) (dt : Datetime) (h : Doc.parseAll s = some dt) : FieldsInRange dt := by
+  unfold Doc.parseAll at h
+  split at h
+  · rename_i d hd
+    injection h with h; subst h
+    exact doc_dateTime_ranges _ _ _ hd
+  · contradiction
+
+theorem T12_std_ranges (s : Bytes) (dt : Datetime) (h : Std.fromStr s = some dt) : FieldsInRange dt :=
+  T12_doc_ranges s dt (T12_agree s ▸ h)
+
+/-- non-vacuity of the two range theorems: "2000-02-29 23:59:60.999999999-23:59" is accepted -/
+example : Std.fromStr [50, 48, 48, 48, 45, 48, 50, 45, 50, 57, 32, 50, 51, 58, 53, 57, 58, 54, 48, 46,
+      57, 57, 57, 57, 57, 57, 57, 57, 57, 45, 50, 51, 58, 53, 57] =
+    some ⟨some ⟨2000, 2, 29⟩, some ⟨23, 59, 60, 999999999⟩, some (.custom (-1439))⟩ := by decide
+example : Doc.parseAll [50, 48, 48, 48, 45, 48, 50, 45, 50, 57, 32, 50, 51, 58, 53, 57, 58, 54, 48, 46,
+      57, 57, 57, 57, 57, 57, 57, 57, 57, 45, 50, 51, 58, 53, 57] =
+    some ⟨some ⟨2000, 2, 29⟩, some ⟨23, 59, 60, 999999999⟩, some (.custom (-1439))⟩ := by decide
+
+/-! ## round trip through the printer -/
+
+theorem doc_roundtrip (dt : Datetime) (h : FieldsInRange dt)
+    (hy : ∀ d, dt.date = some d → d.year ≤ 9999) : Doc.parseAll (Std.display dt) = some dt := by
+  obtain ⟨date, time, offset⟩ := dt
+  obtain ⟨hd, ht, ho, hs1, hs2⟩ := h
+  simp only at hd ht ho hs1 hs2 hy
+  cases date with
+  | none =>
+    obtain ⟨h1, h2⟩ := hs2 rfl
+    subst h2
+    cases time with
+    | none => exact absurd rfl h1
+    | some t =>
+      obtain ⟨⟨a, b, c⟩, n⟩ := ht t rfl
+      have e : Std.display ⟨none, some t, none⟩ = Std.displayTime t := by simp [Std.display]
+      have f1 := fullDate_displayTime t [] a
+      have f2 := partialTime_display t [] a b c n timeFollow_nil
+      rw [List.append_nil] at f1 f2
+      rw [e]
+      simp [Doc.parseAll, Doc.dateTime, f1, f2]
+  | some d =>
+    obtain ⟨m1, m2, d1, d2⟩ := hd d rfl
+    have hyy := hy d rfl
+    cases time with
+    | none =>
+      cases offset with
+      | some o => exact absurd rfl (hs1 (by simp)).2
+      | none =>
+        have e : Std.display ⟨some d, none, none⟩ = Std.displayDate d := by simp [Std.display]
+        have f1 := fullDate_display d [] hyy m1 m2 d1 d2
+        rw [List.append_nil] at f1
+        rw [e]
+        simp [Doc.parseAll, Doc.dateTime, f1]
+    | some t =>
+      obtain ⟨⟨a, b, c⟩, n⟩ := ht t rfl
+      cases offset with
+      | none =>
+        have e : Std.display ⟨some d, some t, none⟩ = Std.displayDate d ++ (0x54 :: Std.displayTime t) := by
+          simp [Std.display]
+        have f2 := partialTime_display t [] a b c n timeFollow_nil
+        rw [List.append_nil] at f2
+        rw [e]
+        simp [Doc.parseAll, Doc.dateTime, fullDate_display d _ hyy m1 m2 d1 d2, Doc.isTimeDelim,
+          f2, Doc.timeOffset]
+      | some o =>
+        have hor := ho o rfl
+        have hor' : ∀ m, o = .custom m → -1439 ≤ m ∧ m ≤ 1439 := by
+          intro m hm; subst hm; exact hor
+        have e : Std.display ⟨some d, some t, some o⟩ =
+            Std.displayDate d ++ (0x54 :: (Std.displayTime t ++ Std.displayOffset o)) := by
+          simp [Std.display]
+        have f2 := partialTime_display t _ a b c n (timeFollow_offset o [])
+        have f3 := timeOffset_display o [] hor'
+        rw [List.append_nil] at f2 f3
+        rw [e]
+        simp [Doc.parseAll, Doc.dateTime, fullDate_display d _ hyy m1 m2 d1 d2, Doc.isTimeDelim,
+          f2, f3]
+
+/-- printing an in-range value of one of the four kinds (year at most 9999) and reading the text
+    back with either parser gives exactly the same value.  There is no exception for a zero
+    offset: `custom 0` is written `+00:00`, which reads back as `custom 0` (the model's offset is an
+    `Int`, so the input `-00:00` also reads as `custom 0`; see the examples below). -/
+theorem T12_roundtrip (dt : Datetime) (h : FieldsInRange dt)
+    (hy : ∀ d, dt.date = some d → d.year ≤ 9999) :
+    Std.fromStr (Std.display dt) = some dt ∧ Doc.parseAll (Std.display dt) = some dt :=
+  ⟨(T12_agree _).trans (doc_roundtrip dt h hy), doc_roundtrip dt h hy⟩
+
+/-- non-vacuity of `T12_roundtrip`: a value with a fraction and a negative offset satisfies the
+    hypotheses; it is written "1979-05-27T07:32:00.00012-01:30" -/
+example : FieldsInRange ⟨some ⟨1979, 5, 27⟩, some ⟨7, 32, 0, 120000⟩, some (.custom (-90))⟩ ∧
+    Std.display ⟨some ⟨1979, 5, 27⟩, some ⟨7, 32, 0, 120000⟩, some (.custom (-90))⟩ =
+      [49, 57, 55, 57, 45, 48, 53, 45, 50, 55, 84, 48, 55, 58, 51, 50, 58, 48, 48, 46, 48, 48, 48, 49, 50,
+       45, 48, 49, 58, 51, 48] := by
+  refine ⟨⟨?_, ?_, ?_, ?_⟩, by decide⟩
+  · intro d h; injection h with h; subst h; simp [DateInRange, maxDays]
+  · intro t h; injection h with h; subst h; simp [TimeInRange, NanosInRange]
+  · intro o h; injection h with h; subst h; simp [OffsetInRange]
+  · simp [ShapeOk]
+/-- a time-only value satisfies the hypotheses as well -/
+example : FieldsInRange ⟨none, some ⟨7, 32, 0, 1⟩, none⟩ := by
+  refine ⟨?_, ?_, ?_, ?_⟩
+  · intro d h; cases h
+  · intro t h; injection h with h; subst h; simp [TimeInRange, NanosInRange]
+  · intro o h; cases h
+  · simp [ShapeOk]
+/-- zero offsets: "1979-05-27T07:32:00-00:00" reads as `custom 0`, which is written back with `+` -/
+example : Std.fromStr [49, 57, 55, 57, 45, 48, 53, 45, 50, 55, 84, 48, 55, 58, 51, 50, 58, 48, 48,
+      45, 48, 48, 58, 48, 48] = some ⟨some ⟨1979, 5, 27⟩, some ⟨7, 32, 0, 0⟩, some (.custom 0)⟩ ∧
+    Std.display ⟨some ⟨1979, 5, 27⟩, some ⟨7, 32, 0, 0⟩, some (.custom 0)⟩ =
+      [49, 57, 55, 57, 45, 48, 53, 45, 50, 55, 84, 48, 55, 58, 51, 50, 58, 48, 48,
+       43, 48, 48, 58, 48, 48] := by decide
+
 end TomlVerif.Props.C12
+
